@@ -109,6 +109,8 @@ pub enum Op {
     Book,
     Plugin,
     Status,
+    /// the perft helper called with a degenerate depth (promised nothing but safety)
+    Perft,
 }
 
 static CURRENT_OP: AtomicU32 = AtomicU32::new(0);
@@ -130,6 +132,7 @@ pub fn current_op() -> &'static str {
         9 => "book",
         10 => "plugin",
         11 => "status",
+        12 => "perft",
         _ => "harness",
     }
 }
